@@ -572,15 +572,49 @@ func c18SyncScenario(readers, advances int) *mc.Scenario {
 	}}
 }
 
+// c18SyncFailScenario: the leader answers every status request with an error while several follower
+// reads overlap: every one of them must fail - also the ones that shared another read's fetch.
+func c18SyncFailScenario(readers int) *mc.Scenario {
+	return &mc.Scenario{Name: fmt.Sprintf("C18/sync/readers=%d/leader-answers-503", readers), Body: func(x *mc.X) {
+		foll := &follower18{rev: base}
+		el := &leader.Stub{ElectionInfo: leader.ElectionInfo{LeaderAddress: "leader.test:1", IsLeader: false}}
+		rs := revision.NewRevisionSyncer(foll, hx.NopMetrics{}, el, nil)
+		fetches := 0
+		revision.VerifSetRoundTripper(rs, roundTripFunc(func(req *http.Request) (*http.Response, error) {
+			fetches++
+			return &http.Response{StatusCode: 503, Status: "503 Service Unavailable", Proto: "HTTP/1.1", ProtoMajor: 1, ProtoMinor: 1, Header: http.Header{}, Body: ioutil.NopCloser(bytes.NewReader([]byte("leader is busy"))), Request: req}, nil
+		}))
+		errs := make([]error, readers)
+		vrt.BeginExplore()
+		var ths []*vrt.Thread
+		for i := 0; i < readers; i++ {
+			i := i
+			ths = append(ths, vrt.Go(func() { errs[i] = rs.SyncReadRevision() }))
+		}
+		for _, t := range ths {
+			vrt.Join(t)
+		}
+		vrt.EndExplore()
+		served := 0
+		for i, err := range errs {
+			if err == nil {
+				served++
+				x.Fail("C18|follower-reads-without-leader-revision|shared-failed-fetch", "read %d of %d overlapping follower reads was told the synchronisation succeeded although every status request (%d made) was answered 503; it is served at the follower's own revision %d", i, readers, fetches, int64(vatomic.LoadUint64(&foll.rev))-base)
+			}
+		}
+		x.Obs = fmt.Sprintf("fetches=%d served=%d", fetches, served)
+	}}
+}
+
 func init() {
 	mc.Register(&mc.Property{
 		ID:     "C18",
 		Level:  "model_checking",
-		Rule:   "(a) the full configuration matrix, every cell executed: 25 request types of both APIs (etcd Range get/list/count/partitions, Txn create/update/delete/compact/invalid, Watch pure/non-pure/range-stream/cancel, Compact, LeaseGrant; native Create/Update/Delete/Compact/Get/Range/Count/ListPartition/RangeStream/Watch) x {leader, follower} x {proxy off, on} x leader {reachable, connection refused, HTTP 400 with text, HTTP 200 with a body that is not JSON, HTTP 503 with a JSON error body, HTTP 500 with a revision-shaped JSON body} = 600 cells, through the real etcd and native servers with the REAL revision syncer against an in-process HTTP endpoint and a recording backend; (b) every schedule (preemption-bounded, state cache) of 2 follower range reads against a leader committing 1-2 writes on the shared store, single-flight group compiled against the scheduler",
+		Rule:   "(a) the full configuration matrix, every cell executed: 25 request types of both APIs (etcd Range get/list/count/partitions, Txn create/update/delete/compact/invalid, Watch pure/non-pure/range-stream/cancel, Compact, LeaseGrant; native Create/Update/Delete/Compact/Get/Range/Count/ListPartition/RangeStream/Watch) x {leader, follower} x {proxy off, on} x leader {reachable, connection refused, HTTP 400 with text, HTTP 200 with a body that is not JSON, HTTP 503 with a JSON error body, HTTP 500 with a revision-shaped JSON body} = 600 cells, through the real etcd and native servers with the REAL revision syncer against an in-process HTTP endpoint and a recording backend; (b) every schedule (preemption-bounded, state cache) of 2 follower range reads against a leader committing 1-2 writes on the shared store, single-flight group compiled against the scheduler; and of 2-3 overlapping follower reads against a leader that answers every status request with an error (every read must fail)",
 		Assume: []string{"an HTTP round trip is one atomic step of the calling thread", "the etcd proxy is a recording stub (the real proxy needs a gRPC connection to a live leader)"},
 		Exec:   c18Exec,
 		Scenarios: func(tier string) []*mc.Scenario {
-			out := []*mc.Scenario{c18SyncScenario(2, 1), c18SyncScenario(2, 2), c18SyncScenario(3, 1)}
+			out := []*mc.Scenario{c18SyncScenario(2, 1), c18SyncScenario(2, 2), c18SyncScenario(3, 1), c18SyncFailScenario(2), c18SyncFailScenario(3)}
 			if tier == "thorough" {
 				out = append(out, c18SyncScenario(3, 2), c18SchedScenario(2, 1))
 			}
